@@ -501,6 +501,58 @@ fn deleverage(e: &Env, tier: Tier, a: &mut Acc) -> (u64, u64) {
             }
         }
     }
+    // withdraw-all inside a deleverage counts with its full value against the daily limit
+    for limit in [0u32, 100] {
+        // from the unhealthy state: emptying the account cannot make its (negative) health worse
+        let mut s = golden::unhealthy(e);
+        golden::fund_all_identities(e, &mut s);
+        if limit > 0 {
+            assert!(process_tx(&mut s, &Tx::one(ix::configure_deleverage_withdrawal_limit(w.group, w.roles.admin, limit), &[w.roles.admin])).ok());
+        }
+        let acct = w.users[0].account;
+        let risk = w.roles.risk;
+        // rewards would keep the balance from closing: this bank stops emitting and nothing is outstanding
+        world::edit_bank(&mut s, &w.banks[0].key, |b| b.flags &= !(EMISSIONS_FLAG_BORROW_ACTIVE | EMISSIONS_FLAG_LENDING_ACTIVE));
+        world::edit_account(&mut s, &acct, |a| {
+            for b in a.lending_account.balances.iter_mut() {
+                b.emissions_outstanding = I80F48::ZERO.into();
+            }
+        });
+        let rem = w.risk_metas(&s, &acct, None, None);
+        let ta0 = golden::token_account_of(&s, &w.banks[0].mint, &risk).unwrap();
+        let ta1 = golden::token_account_of(&s, &w.banks[1].mint, &risk).unwrap();
+        let pos_usd = {
+            let a = world::account(&s, &acct);
+            let bk = world::bank(&s, &w.banks[0].key);
+            a.lending_account.balances.iter().find(|b| b.active != 0 && b.bank_pk == w.banks[0].key).map(|b| rf::qf64(&(rf::q(b.asset_shares) * rf::q(bk.asset_share_value))) / 1e6).unwrap_or(0.0)
+        };
+        let ixs = vec![
+            ix::start_deleverage(w.group, acct, risk, rem.clone()),
+            ix::repay(w.group, acct, risk, w.banks[1].key, ta1, w.banks[1].token_program, 0, Some(true), vec![]),
+            ix::withdraw(w.group, acct, risk, w.banks[0].key, ta0, w.banks[0].token_program, 0, Some(true), w.risk_metas(&s, &acct, None, Some(w.banks[1].key))),
+            ix::end_deleverage(w.group, acct, risk, vec![]),
+        ];
+        let mut u = s.clone();
+        let r = process_tx(&mut u, &Tx::new(ixs, &[risk]));
+        trans += 1;
+        *a.classes.entry(format!("deleverage:withdraw_all:limit{}:{}", limit, if r.ok() { "ok".to_string() } else { format!("refused:{}", crate::svm::err_name(r.code())) })).or_insert(0) += 1;
+        if r.ok() && limit > 0 && pos_usd.floor() > limit as f64 {
+            a.found.push(Found { clause: "C12.deleverage_daily_limit".into(), sig: format!("withdraw_all:limit{limit}"), detail: format!("a deleverage withdrew the whole position worth ${:.2} in one go although the daily limit is ${}", pos_usd, limit), replay: json!({"model": "C12c", "limit": limit, "withdraw_all": true}) });
+        }
+    }
+    // purging a lender's balance is for wound-down banks only: refused unless the bank is flagged complete
+    for (fname, flags) in [("no_flags", 0u64), ("allowed_only", TOKENLESS_REPAYMENTS_ALLOWED), ("allowed_and_complete", TOKENLESS_REPAYMENTS_ALLOWED | TOKENLESS_REPAYMENTS_COMPLETE)] {
+        let mut s = s0.clone();
+        world::edit_bank(&mut s, &w.banks[0].key, |b| b.flags |= flags);
+        let before = world::account(&s, &w.users[0].account).lending_account;
+        let mut u = s.clone();
+        let r = process_tx(&mut u, &Tx::one(ix::purge_deleverage_balance(w.group, w.users[0].account, w.roles.risk, w.banks[0].key), &[w.roles.risk]));
+        trans += 1;
+        *a.classes.entry(format!("purge:{fname}:{}", if r.ok() { "ok" } else { "refused" })).or_insert(0) += 1;
+        if r.ok() && flags & TOKENLESS_REPAYMENTS_COMPLETE == 0 && world::account(&u, &w.users[0].account).lending_account != before {
+            a.found.push(Found { clause: "C12.risk_admin_only_what_deleveraging_needs".into(), sig: format!("purge:{fname}"), detail: format!("the risk admin purged a lender's balance in a bank that is not wound down (flags: {fname})"), replay: json!({"model": "C12c", "purge": fname}) });
+        }
+    }
     // a deleverage that only withdraws must be refused (health would get worse); by others too
     {
         let mut u = s0.clone();
